@@ -1,0 +1,154 @@
+//! Verification seams (cfg `excsn_fibre_verif` only; the crate is unchanged without it).
+//!
+//! * H1 - a process-global virtual clock replaces `Instant::now()` in `time::now_duration()`.
+//! * H2 - background threads become explicit: with `set_background_threads(false)` the builder
+//!   spawns neither the janitor nor the notifier thread; `janitor_pass` runs the janitor's own
+//!   functions on a chosen shard, `pump_listener` delivers queued notifications to the listener
+//!   on the caller's thread, and `set_maintenance_coin` answers `FastRng::should_run`.
+//! * `dump` reads the shard maps as they are (including expired, not yet collected entries).
+use crate::handles::Cache;
+use crate::task::janitor::{Janitor, JanitorContext, perform_shard_maintenance};
+
+use std::hash::{BuildHasher, Hash};
+use std::sync::Arc;
+use std::sync::atomic::{AtomicBool, AtomicU8, AtomicU64, Ordering};
+
+static CLOCK_NANOS: AtomicU64 = AtomicU64::new(1_000_000_000);
+static BACKGROUND_THREADS: AtomicBool = AtomicBool::new(true);
+/// 0 = production behaviour, 1 = always "do not run", 2 = always "run"
+static COIN: AtomicU8 = AtomicU8::new(0);
+
+pub fn clock_nanos() -> u64 {
+  CLOCK_NANOS.load(Ordering::SeqCst)
+}
+pub fn set_clock_nanos(n: u64) {
+  CLOCK_NANOS.store(n, Ordering::SeqCst);
+}
+pub fn advance_clock_nanos(d: u64) {
+  CLOCK_NANOS.fetch_add(d, Ordering::SeqCst);
+}
+pub fn set_background_threads(on: bool) {
+  BACKGROUND_THREADS.store(on, Ordering::SeqCst);
+}
+pub(crate) fn background_threads() -> bool {
+  BACKGROUND_THREADS.load(Ordering::SeqCst)
+}
+pub fn set_maintenance_coin(answer: Option<bool>) {
+  COIN.store(
+    match answer {
+      None => 0,
+      Some(false) => 1,
+      Some(true) => 2,
+    },
+    Ordering::SeqCst,
+  );
+}
+pub(crate) fn maintenance_coin() -> Option<bool> {
+  match COIN.load(Ordering::SeqCst) {
+    1 => Some(false),
+    2 => Some(true),
+    _ => None,
+  }
+}
+
+/// What one explicit janitor pass does on a shard.
+#[derive(Clone, Copy, Debug, PartialEq, Eq)]
+pub enum JanitorWork {
+  /// drain events (janitor drain limit), then TTL, TTI and capacity cleanup: the periodic tick
+  Periodic,
+  /// drain events, then capacity cleanup: the reaction to a maintenance signal
+  Signaled,
+  /// only the capacity cleanup
+  CapacityOnly,
+}
+
+fn context<K, V, H>(cache: &Cache<K, V, H>) -> JanitorContext<K, V, H>
+where
+  K: Send,
+  V: Send + Sync,
+{
+  JanitorContext {
+    store: Arc::clone(&cache.shared.store),
+    metrics: Arc::clone(&cache.shared.metrics),
+    cache_policy: cache.shared.cache_policy.clone(),
+    capacity: cache.shared.capacity,
+    time_to_idle: cache.shared.time_to_idle,
+    notification_sender: cache.shared.notification_sender.as_ref().map(|s| s.clone()),
+  }
+}
+
+/// Runs on the calling thread what the janitor thread would run on `shard_index`
+/// (the same private functions, under the shard's maintenance lock).
+/// Returns false when the maintenance lock was contended (the janitor skips the shard then).
+pub fn janitor_pass<K, V, H>(cache: &Cache<K, V, H>, shard_index: usize, work: JanitorWork) -> bool
+where
+  K: Eq + Hash + Clone + Send + Sync + 'static,
+  V: Send + Sync + 'static,
+  H: BuildHasher + Clone + Send + Sync + 'static,
+{
+  let ctx = context(cache);
+  let shard = &ctx.store.shards[shard_index];
+  let Some(_guard) = shard.maintenance_lock.try_lock() else {
+    return false;
+  };
+  match work {
+    JanitorWork::Periodic => {
+      perform_shard_maintenance(shard, shard_index, &ctx, 256);
+      Janitor::cleanup_ttl_for_shard(shard, shard_index, &ctx);
+      Janitor::cleanup_tti_for_shard(shard, shard_index, &ctx);
+      Janitor::cleanup_capacity_for_shard(shard, shard_index, &ctx);
+    }
+    JanitorWork::Signaled => {
+      perform_shard_maintenance(shard, shard_index, &ctx, 256);
+      Janitor::cleanup_capacity_for_shard(shard, shard_index, &ctx);
+    }
+    JanitorWork::CapacityOnly => {
+      Janitor::cleanup_capacity_for_shard(shard, shard_index, &ctx);
+    }
+  }
+  true
+}
+
+/// Delivers every queued eviction notification to the listener on the calling thread
+/// (only meaningful for caches built with background threads off). Returns how many.
+pub fn pump_listener<K, V, H>(cache: &Cache<K, V, H>) -> usize
+where
+  K: Send,
+  V: Send + Sync,
+{
+  match &cache.shared.notifier {
+    Some(n) => n.verif_pump(),
+    None => 0,
+  }
+}
+
+/// One resident entry as stored: (key, value, cost, expires_at nanos (0 = none), last_accessed nanos).
+pub fn dump<K, V, H>(cache: &Cache<K, V, H>) -> Vec<(K, Arc<V>, u64, u64, u64)>
+where
+  K: Clone + Send,
+  V: Send + Sync,
+{
+  let mut out = Vec::new();
+  for shard in cache.shared.store.shards.iter() {
+    let guard = shard.map.read();
+    for (k, e) in guard.iter() {
+      out.push((
+        k.clone(),
+        e.value(),
+        e.cost(),
+        e.expires_at.load(Ordering::Relaxed),
+        e.last_accessed.load(Ordering::Relaxed),
+      ));
+    }
+  }
+  out
+}
+
+/// The raw `current_cost` gauge (no introspection flush).
+pub fn current_cost_raw<K, V, H>(cache: &Cache<K, V, H>) -> u64
+where
+  K: Send,
+  V: Send + Sync,
+{
+  cache.shared.metrics.current_cost.load(Ordering::Relaxed)
+}
